@@ -662,7 +662,7 @@ def _mut_borrow_calls(body, local):
                 if len(pl) != 1 or pl[0] in refs:
                     continue
                 src = None
-                if rv.get('op') == 'use':
+                if rv.get('op') in ('use', 'cast') and rv.get('a'):     # cast: `&mut [u8; N]` unsized to `&mut [u8]`
                     src = op_place(rv['a'][0])
                 elif rv.get('op') == 'ref':
                     src = rv['pl']
@@ -689,7 +689,13 @@ def _mut_borrow_calls(body, local):
                 cn = callee_of(t)
                 if not (cn.endswith('index_mut') or cn.endswith('deref_mut')):
                     out.append((i, t))
+            elif any(op_place(a) and op_place(a)[0] in refs for a in t['a'][1:]):
+                # an out-parameter in a later position (`self.current_tt_hash(&mut tt_hash)`): the call may fill it from its other arguments
+                out.append((i, t))
     cache[local] = out
+    if not hasattr(body, '_mbrefs'):
+        body._mbrefs = {}
+    body._mbrefs[local] = refs
     return out
 
 
@@ -788,7 +794,13 @@ def sources(body, operand_or_local, through=(), depth=60, _seen=None):
         for (cbb, t) in _mut_borrow_calls(body, l):
             cn = callee_of(t)
             out.add(('mutcall', cn, cbb))
-            for a in t['a'][1:]:
+            if 'r' in t:
+                out.add(('mutcall', t['r'], cbb))
+            a0 = op_place(t['a'][0])
+            for k, a in enumerate(t['a']):
+                pa = op_place(a)
+                if k == 0 and pa and pa[0] in getattr(body, '_mbrefs', {}).get(l, ()):
+                    continue
                 from_operand(a, d - 1)
 
     if isinstance(operand_or_local, int):
